@@ -9,6 +9,8 @@ import Cpf.Query.Console
 import Cpf.Query.Output
 import Cpf.Scan.Build
 import Cpf.Scan.Attrs
+import Cpf.Rules.RuleFile
+import Cpf.Rules.Ci
 import Cpf.Generated.Grammar
 
 open Cpf.Query Cpf.Go Cpf.Generated
@@ -129,6 +131,18 @@ partial def attrWalk (src file : Bytes) (n : T) (prev : Option T) : List String 
     | c :: rest => attrWalk src file c p ++ kids rest (some c)
   here ++ kids n.children none
 
+/-- fields: per rule: text, then `fail` or `ok n (file line)*` -/
+def sarifEntries : Nat → List String → List Cpf.Rules.Entry → List Cpf.Rules.Entry
+  | 0, _, acc => acc
+  | fuel + 1, fs, acc =>
+      match fs with
+      | text :: "fail" :: rest => sarifEntries fuel rest (acc ++ [{ rule := Cpf.Rules.ciParse text.toList, result := none }])
+      | text :: "ok" :: n :: rest =>
+          let k := n.toNat!
+          let fl := (List.range k).map (fun i => ({ file := rest[2 * i]!, line := (rest[2 * i + 1]!).toNat! } : Cpf.Rules.Finding))
+          sarifEntries fuel (rest.drop (2 * k)) (acc ++ [{ rule := Cpf.Rules.ciParse text.toList, result := some fl }])
+      | _ => acc
+
 def handle (fields : List String) : List String :=
   match fields with
   | ["ping"] => ["pong"]
@@ -181,6 +195,14 @@ def handle (fields : List String) : List String :=
       match parseTree tree with
       | none => ["bad-tree"]
       | some (t, _) => "ok" :: attrWalk (unhex srcHex) (Cpf.Scan.str file) t none
+  | ["rulefile", text] =>
+      let r := Cpf.Rules.ciParse text.toList
+      [r.id, r.description, r.severity, r.impact, r.provider, r.query].map String.ofList
+  | ["extract", text] => [String.ofList (Cpf.Rules.extractQuery text.toList)]
+  | "sarif" :: fields =>
+      let es := sarifEntries fields.length fields []
+      (Cpf.Rules.sarifRules es).map String.ofList ++ ["--"] ++
+        (Cpf.Rules.sarifResults es).flatMap (fun r => [String.ofList r.ruleId, String.ofList r.level, String.ofList r.message, r.file, toString r.line])
   | ["cond", q] =>
       match prepare q.toList with
       | .ok p =>
